@@ -438,6 +438,8 @@ def o_c09(v):
                     return '%s: forever job %s not cancelled at the instant %s the last regular job finished' % (S, m, last[1])
             if en is not None and en[1] > last[1]:
                 return '%s: forever job %s started at %s after the run was over (%s)' % (S, m, en[1], last[1])
+            if en is not None and (fin is None or fin[0] > end[0]):
+                return '%s: forever job %s outlives the run (run over at tick %d, vt %s)' % (S, m, end[0], end[1])
         if end[1] > last[1] + slack(v, S) + 1e-9:
             return '%s: run ended at %s, not as soon as its last regular job finished (%s)' % (S, end[1], last[1])
     return None
@@ -690,6 +692,11 @@ def o_c10_single(v):
     err = o_c04(v)
     if err:
         return err
+    # "a single job that starts when its requirements have finished and finishes when its own run does": the
+    # ordering rule of C01, which treats a nested scheduler as one job
+    err = o_c01(v)
+    if err:
+        return err
     for S in v.scheds():
         if S not in v.b.parent:
             continue
@@ -758,13 +765,7 @@ def o_c06(spec, spec2, flipped):
     if n1 != n2:
         diff = [x for x in n1 if x not in n2] + [x for x in n2 if x not in n1]
         d = [x for x in n1 if x not in n2][:3] + [x for x in n2 if x not in n1][:3]
-        tag = ''
-        import sys as _sys
-        if _sys.version_info < (3, 12) and len({x[0] for x in diff}) == 1:
-            # known finding (python <= 3.11 only): clearing the exceptions of a batch costs co_run one extra
-            # event-loop iteration, which can decide a race inside one instant
-            tag = '[same-instant-race-py311] '
-        return '%sswitching %s from returning to raising changes the run: %s' % (tag, flipped, d)
+        return 'switching %s from returning to raising changes the run: %s' % (flipped, d)
     if (r1.verdict, type(r1.exc)) != (r2.verdict, type(r2.exc)):
         return 'verdict changes: %r/%r vs %r/%r' % (r1.verdict, r1.exc, r2.verdict, r2.exc)
     for f in flipped:
